@@ -463,6 +463,170 @@ def _aff_place(pl, val):
     return None
 
 
+def _affine_eval_arm(facts, b, arm, self_val, depth=0):
+    """Evaluate `b` (a function of `&Associativity`, possibly through private helpers that return tuples / bools) for ONE enum arm:
+    the set of values it can return, each an affine term (a, c) = a*x + c over the binding power x, ('bool', v) or ('tuple', [..]).
+    Paths whose discriminant test picks another arm are infeasible.  None if something cannot be evaluated."""
+    import nf as _nf
+    if depth > 3:
+        return None
+    N = _NF.get(id(facts)) if id(facts) in _NF else None
+    if N is None:
+        effects_nf(facts, b)
+        N = _NF[id(facts)]
+    out = set()
+    try:
+        ps = mirq.paths(b, limit=4000)
+    except RuntimeError:
+        return None
+    for path in ps:
+        if path and path[-1][1] == "loop":
+            return None
+        val = {1: self_val}
+        feasible = True
+
+        def place(pl):
+            if pl is None or pl["l"] not in val:
+                return None
+            v = val[pl["l"]]
+            for e in pl["p"]:
+                if e == "*":
+                    continue
+                if isinstance(e, dict) and "dc" in e:
+                    continue
+                if isinstance(e, dict) and "f" in e:
+                    if v == "self":
+                        v = (1, 0)                      # payload of the arm: the binding power x
+                    elif isinstance(v, tuple) and v and v[0] == "tuple":
+                        v = v[1][e["f"]] if e["f"] < len(v[1]) else None
+                    elif isinstance(v, tuple) and v and v[0] == "pair":
+                        v = v[1] if e["f"] == 0 else None
+                    else:
+                        return None
+                else:
+                    return None
+                if v is None:
+                    return None
+            return v
+
+        def operand(o):
+            if "k" in o:
+                t = o["k"].get("val", "").strip()
+                if t in ("true", "false"):
+                    return ("bool", t == "true")
+                m = re.match(r"^(?:const )?(-?\d+)(_[ui]\d+|_usize)?$", t)
+                return (0, int(m.group(1))) if m else None
+            return place(mirq.operand_place(o))
+        for (bb, idx) in path:
+            bl = b["blocks"][bb]
+            for st in bl["stmts"]:
+                if st["k"] != "assign" or st["place"]["p"]:
+                    continue
+                rv = st["rv"]
+                v = None
+                k = rv["k"]
+                if k == "use":
+                    v = operand(rv["op"])
+                elif k in ("ref", "copyderef"):
+                    v = place(rv["place"])
+                elif k == "cast":
+                    v = operand(rv["op"])
+                    if isinstance(v, tuple) and v and v[0] == "bool":
+                        v = (0, int(v[1]))
+                elif k == "discr":
+                    pv_ = place(rv["place"])
+                    v = ("discr",) if pv_ == "self" else None
+                elif k == "un" and rv["op"] == "Not":
+                    x = operand(rv["a"])
+                    v = ("bool", not x[1]) if isinstance(x, tuple) and x and x[0] == "bool" else None
+                elif k == "agg" and rv.get("ak") == "tuple":
+                    v = ("tuple", [operand(o) for o in rv["ops"]])
+                elif k == "bin":
+                    a_, b_ = operand(rv["a"]), operand(rv["b"])
+                    op = rv["op"].replace("WithOverflow", "").replace("Unchecked", "")
+                    if a_ is not None and b_ is not None and isinstance(a_[0], int) and isinstance(b_[0], int):
+                        if op == "Add":
+                            v = (a_[0] + b_[0], a_[1] + b_[1])
+                        elif op == "Sub":
+                            v = (a_[0] - b_[0], a_[1] - b_[1])
+                        elif op == "Mul" and (a_[0] == 0 or b_[0] == 0):
+                            kk, o_ = (a_, b_) if a_[0] == 0 else (b_, a_)
+                            v = (kk[1] * o_[0], kk[1] * o_[1])
+                        elif op == "Shl" and b_[0] == 0 and 0 <= b_[1] < 32:
+                            v = (a_[0] << b_[1], a_[1] << b_[1])
+                        elif op == "BitOr" and (a_[0] == 0 or b_[0] == 0):
+                            kk, o_ = (a_, b_) if a_[0] == 0 else (b_, a_)
+                            n_ = max(1, kk[1].bit_length())
+                            if kk[1] >= 0 and o_[0] % (1 << n_) == 0 and o_[1] % (1 << n_) == 0:
+                                v = (o_[0], o_[1] + kk[1])
+                        if v is not None:
+                            pa = mirq.operand_place(rv["a"])
+                            w = _int_width(mirq.local_ty(b, pa["l"])) if pa else None
+                            w = w or _int_width(mirq.local_ty(b, st["place"]["l"]).strip("()").split(",")[0])
+                            hi = max(v[1], v[0] * 65535 + v[1])
+                            lo = min(v[1], v[0] * 65535 + v[1])
+                            if w is not None and (hi >= (1 << w) or lo < 0):
+                                OVERFLOWS.append("%s: %s of width u%d evaluates to %d*x+%d, which leaves the type for some u16 binding power x (max %d)"
+                                                 % (b["qname"], rv["op"], w, v[0], v[1], hi))
+                            if rv["op"].endswith("WithOverflow"):
+                                v = ("pair", v)
+                if v is not None:
+                    val[st["place"]["l"]] = v
+                else:
+                    val.pop(st["place"]["l"], None)
+            t = bl["term"]
+            if t["k"] == "call" and not t["dest"]["p"]:
+                f_ = mirq.callee_of(t)
+                dv = None
+                if f_ is not None and f_["name"] in ("from", "into") and len(t["args"]) == 1 and f_.get("krate") != "chumsky":
+                    dv = operand(t["args"][0]["op"])
+                    if isinstance(dv, tuple) and dv and dv[0] == "bool":
+                        dv = (0, int(dv[1]))
+                    if isinstance(dv, tuple) and dv and dv[0] == "pair":
+                        dv = None
+                elif f_ is not None and f_.get("krate") == "chumsky" and len(t["args"]) == 1 and operand(t["args"][0]["op"]) == "self":
+                    cb = N.local_body(_nf._callee_id(f_))
+                    if cb is not None:
+                        sub = _affine_eval_arm(facts, cb, arm, "self", depth + 1)
+                        if sub is not None and len(sub) == 1:
+                            dv = list(sub)[0]
+                            dv = ("tuple", list(dv[1])) if isinstance(dv, tuple) and dv and dv[0] == "tuple" else dv
+                if dv is not None:
+                    val[t["dest"]["l"]] = dv
+                else:
+                    val.pop(t["dest"]["l"], None)
+            if t["k"] == "switch" and idx not in (None, "loop"):
+                sv = operand(t["op"])
+                ch = mirq.switch_choice(b, bb, idx)
+                if sv == ("discr",):
+                    listed = [int(v) for v, _ in t["targets"]]
+                    if ch == "otherwise":
+                        if arm in listed:
+                            feasible = False
+                    elif int(ch) != arm:
+                        feasible = False
+                elif isinstance(sv, tuple) and sv and sv[0] == "bool":
+                    want = 1 if sv[1] else 0
+                    if ch == "otherwise":
+                        if want in [int(v) for v, _ in t["targets"]]:
+                            feasible = False
+                    elif int(ch) != want:
+                        feasible = False
+            if not feasible:
+                break
+        if not feasible:
+            continue
+        rv0 = val.get(0)
+        if rv0 is None:
+            return None
+        if isinstance(rv0, tuple) and rv0 and rv0[0] == "tuple":
+            if any(x is None for x in rv0[1]):
+                return None
+            rv0 = ("tuple", tuple(rv0[1]))
+        out.add(rv0)
+    return out or None
+
+
 def rule_affine(facts):
     r = RuleResult("AFFINE")
     lp = facts.find("pratt::Associativity::left_power")
@@ -477,6 +641,19 @@ def rule_affine(facts):
     del OVERFLOWS[:]
     L = _affine_of_body(lp[0])
     R = _affine_of_body(rp[0])
+    if not (L and R and len(L) >= 1 and len(R) >= 1 and all(len(v) == 1 for v in list(L.values()) + list(R.values())) and len(L) + len(R) >= 3):
+        # the powers may be computed through a shared private helper (a tuple of (scaled power, is_right), a bool turned into the
+        # tie-breaking bit): evaluate each function arm by arm with crate-local helpers evaluated in place
+        L2, R2 = {}, {}
+        for arm in range(len(variants)):
+            a_ = _affine_eval_arm(facts, lp[0], arm, "self")
+            b_ = _affine_eval_arm(facts, rp[0], arm, "self")
+            if a_:
+                L2[arm] = {x for x in a_ if isinstance(x[0], int)}
+            if b_:
+                R2[arm] = {x for x in b_ if isinstance(x[0], int)}
+        if len(L2) == len(variants) and len(R2) == len(variants) and all(len(v) == 1 for v in list(L2.values()) + list(R2.values())):
+            L, R = L2, R2
     for note in sorted(set(OVERFLOWS)):
         r.ob(False)
         r.violations.append(V("AFFINE", "pratt::Associativity", "no overflow",
